@@ -39,6 +39,38 @@ type pathState struct {
 	inputs    []*Term
 	approx    []string
 	violation *Violation
+	ev        *evalCtx // model of the current path condition (nil: none at hand)
+	evFetches int
+}
+
+var noModelOpt = os.Getenv("VERIF_NOMODEL") != ""
+
+// ensureModel returns an evaluator for a model of the current path condition, fetching one
+// from the solver when none is at hand (at most a few times per path).
+func (i *Interp) ensureModel() *evalCtx {
+	p := i.path
+	if noModelOpt {
+		return nil
+	}
+	if len(p.trace) < len(p.forced) {
+		return nil // still replaying
+	}
+	if p.ev != nil {
+		return p.ev
+	}
+	if p.evFetches >= 6 {
+		return nil
+	}
+	p.evFetches++
+	if i.solver.Check() != rSat {
+		return nil
+	}
+	m, ok := i.solver.Values(i.tt.vars)
+	if !ok {
+		return nil
+	}
+	p.ev = newEvalCtx(m)
+	return p.ev
 }
 
 type Violation struct {
@@ -131,7 +163,7 @@ func (c *RunConfig) matchKnownSig(v *Violation) string {
 type explorer struct {
 	mu      sync.Mutex
 	cond    *sync.Cond
-	work    [][]Decision
+	work    []workItem
 	active  int
 	stats   *Stats
 	cfg     *RunConfig
@@ -142,19 +174,25 @@ func newStats() *Stats {
 	return &Stats{Unsupported: map[string]int{}, BoundHits: map[string]int{}, Reached: map[string]int{}, Funcs: map[string]bool{}, Stubs: map[string]bool{}, Approx: map[string]int{}}
 }
 
-func (e *explorer) push(p []Decision) {
+// workItem: a decision prefix to replay, optionally with a model of its path condition.
+type workItem struct {
+	prefix []Decision
+	model  map[string]uint64
+}
+
+func (e *explorer) push(p workItem) {
 	e.mu.Lock()
 	e.work = append(e.work, p)
 	e.mu.Unlock()
 	e.cond.Signal()
 }
 
-func (e *explorer) pop() ([]Decision, bool) {
+func (e *explorer) pop() (workItem, bool) {
 	e.mu.Lock()
 	defer e.mu.Unlock()
 	for {
 		if e.stopped {
-			return nil, false
+			return workItem{}, false
 		}
 		if n := len(e.work); n > 0 {
 			p := e.work[n-1]
@@ -164,7 +202,7 @@ func (e *explorer) pop() ([]Decision, bool) {
 		}
 		if e.active == 0 {
 			e.cond.Broadcast()
-			return nil, false
+			return workItem{}, false
 		}
 		e.cond.Wait()
 	}
@@ -246,6 +284,34 @@ func (i *Interp) branch(c *Term) bool {
 		return d.Taken
 	}
 	i.checkDeadline()
+	if ev := i.ensureModel(); ev != nil {
+		if v, ok := ev.eval(c); ok {
+			// the model witnesses one side; only the other side needs the solver
+			lit, other := c, i.tt.Not(c)
+			if v == 0 {
+				lit, other = other, c
+			}
+			r := i.solver.Check(other)
+			if r == rUnknown {
+				i.solverFail("unknown on branch condition")
+			}
+			if r == rUnsat {
+				i.pushDecision(Decision{Taken: v == 1, Implied: true})
+				p.asserted[lit.id] = true
+				return v == 1
+			}
+			sibModel, _ := i.solver.Values(i.tt.vars)
+			sib := make([]Decision, len(p.trace)+1)
+			copy(sib, p.trace)
+			sib[len(p.trace)] = Decision{Taken: v != 1}
+			i.exp.push(workItem{sib, sibModel})
+			p.nforks++
+			i.pushDecision(Decision{Taken: v == 1})
+			i.assertPC(lit)
+			return v == 1
+		}
+		p.ev = nil // cannot evaluate: the side taken below may not agree with the model
+	}
 	r1 := i.solver.Check(c)
 	if r1 == rUnknown {
 		i.solverFail("unknown on branch condition")
@@ -269,7 +335,7 @@ func (i *Interp) branch(c *Term) bool {
 	sib := make([]Decision, len(p.trace)+1)
 	copy(sib, p.trace)
 	sib[len(p.trace)] = Decision{Taken: false}
-	i.exp.push(sib)
+	i.exp.push(workItem{prefix: sib})
 	p.nforks++
 	i.pushDecision(Decision{Taken: true})
 	i.assertPC(c)
@@ -304,26 +370,35 @@ func (i *Interp) choose(t *Term) uint64 {
 			continue
 		}
 		i.checkDeadline()
-		r := i.solver.Check()
-		if r == rUnknown {
-			i.solverFail("unknown while enumerating values")
-		}
-		if r == rUnsat {
-			// cannot happen when the invariant "pc is satisfiable" holds
-			panic(pathAbort{kind: "assume", msg: "path condition became unsatisfiable during enumeration"})
-		}
-		vals, ok := i.solver.Values([]*Term{t})
-		if !ok {
-			i.solverFail("get-value failed")
-		}
 		var v uint64
-		found := false
-		for _, x := range vals {
-			v = x
-			found = true
+		fromModel := false
+		if ev := i.ensureModel(); ev != nil {
+			if x, ok := ev.eval(t); ok {
+				v, fromModel = x, true
+			}
 		}
-		if !found {
-			i.solverFail("get-value returned nothing")
+		if !fromModel {
+			p.ev = nil
+			r := i.solver.Check()
+			if r == rUnknown {
+				i.solverFail("unknown while enumerating values")
+			}
+			if r == rUnsat {
+				// cannot happen when the invariant "pc is satisfiable" holds
+				panic(pathAbort{kind: "assume", msg: "path condition became unsatisfiable during enumeration"})
+			}
+			vals, ok := i.solver.Values([]*Term{t})
+			if !ok {
+				i.solverFail("get-value failed")
+			}
+			found := false
+			for _, x := range vals {
+				v = x
+				found = true
+			}
+			if !found {
+				i.solverFail("get-value returned nothing")
+			}
 		}
 		v = maskW(v, w)
 		eq := i.tt.Eq(t, i.tt.BV(w, v))
@@ -339,7 +414,11 @@ func (i *Interp) choose(t *Term) uint64 {
 		sib := make([]Decision, len(p.trace)+1)
 		copy(sib, p.trace)
 		sib[len(p.trace)] = Decision{Taken: false, Val: v, HasVal: true}
-		i.exp.push(sib)
+		var sibModel map[string]uint64
+		if !noModelOpt {
+			sibModel, _ = i.solver.Values(i.tt.vars) // model of pc ∧ t≠v from the query above
+		}
+		i.exp.push(workItem{prefix: sib, model: sibModel})
 		p.nforks++
 		i.pushDecision(Decision{Taken: true, Val: v, HasVal: true})
 		i.assertPC(eq)
@@ -366,7 +445,7 @@ func (i *Interp) chooseIndex(k int) int {
 		sib := make([]Decision, len(p.trace)+1)
 		copy(sib, p.trace)
 		sib[len(p.trace)] = Decision{Taken: false, Implied: true}
-		i.exp.push(sib)
+		i.exp.push(workItem{prefix: sib})
 		p.nforks++
 		i.pushDecision(Decision{Taken: true, Implied: true})
 		return alt
@@ -424,12 +503,26 @@ func (i *Interp) assumeTerm(c *Term) {
 		return
 	}
 	i.checkDeadline()
+	if ev := i.ensureModel(); ev != nil {
+		if v, ok := ev.eval(c); ok && v == 1 {
+			// the model at hand satisfies the assumption: no query needed
+			i.pushDecision(Decision{Taken: true})
+			i.assertPC(c)
+			return
+		}
+	}
 	r := i.solver.Check(c)
 	if r == rUnknown {
 		i.solverFail("unknown on assumption")
 	}
 	if r == rUnsat {
 		panic(pathAbort{kind: "assume"})
+	}
+	p.ev = nil
+	if !noModelOpt {
+		if m, ok := i.solver.Values(i.tt.vars); ok {
+			p.ev = newEvalCtx(m) // model of pc ∧ c
+		}
 	}
 	i.pushDecision(Decision{Taken: true})
 	i.assertPC(c)
@@ -524,9 +617,13 @@ func (i *Interp) where(fr *frame) string {
 
 // ---- running paths
 
-func (i *Interp) runPath(harness *ssa.Function, forced []Decision) {
+func (i *Interp) runPath(harness *ssa.Function, item workItem) {
 	st := i.exp.stats
+	forced := item.prefix
 	i.path = &pathState{forced: forced, asserted: map[int]bool{}, reached: map[string]bool{}}
+	if item.model != nil && !noModelOpt {
+		i.path.ev = newEvalCtx(item.model)
+	}
 	i.steps = 0
 	i.stubs = nil
 	i.symSched = false
@@ -727,7 +824,7 @@ func Explore(ld *Loaded, harness *ssa.Function, cfg *RunConfig) *Stats {
 	st := newStats()
 	e := &explorer{stats: st, cfg: cfg}
 	e.cond = sync.NewCond(&e.mu)
-	e.work = [][]Decision{{}}
+	e.work = []workItem{{}}
 	var wg sync.WaitGroup
 	nw := cfg.Workers
 	if nw < 1 {
